@@ -345,6 +345,96 @@ theorem import_failure_drops_deliverer_example :
        .hashes 1 ⟨[], .unknown⟩, .update [(2, [3]), (1, [2, 1])], .blocks 2 [⟨3, true, true, false⟩], .imp,
        .blocks 1 [⟨2, true, true, true⟩, ⟨1, true, true, true⟩], .imp]).2 = [(2, .importFailed)] := by decide
 
+/-! ### a peer that LEFT with a request in flight (seeded C15-r3-3)
+
+`unregister` removes the peer from the peer set and nothing else: what the node had asked it for stays in flight — the hash
+request until its time-out fires (`hash_wait_times_out`), the block request until `queue.Expire` hands it back. Both are then
+dealt with by code that can no longer look the peer up. In the model that code does not look at the peer set at all; the
+theorems say what it must therefore do for EVERY peer, registered or not: hand the hashes back, drop nobody who is not
+registered. (The Go loop over `queue.Expire` has to skip the peers it cannot find: the `p2p-net` family `leaver-…` runs the
+real node through it.) -/
+
+/-- `queue.Expire`: the hashes of every request whose time is up go back to the queue and the request is forgotten, whoever it
+    was handed to — a registered peer or one that has left since; the peer set is not touched -/
+theorem expired_request_goes_back (q : Sched) (x : Req) (hx : x ∈ q.inflight) (h0 : x.left = 0) :
+    (∀ id ∈ x.ids, id ∈ (expire q).pending) ∧ x ∉ (expire q).inflight ∧ (expire q).peers = q.peers := by
+  refine ⟨?_, ?_, rfl⟩
+  · intro id hid
+    simp only [expire, List.mem_append, List.mem_flatMap, List.mem_filter]
+    exact Or.inr ⟨x, ⟨hx, by simp [h0]⟩, hid⟩
+  · simp [expire, h0]
+
+theorem abort_drop_registered {s : State} {r : Run} {w0 : Why} {d : Drop} (h : d ∈ (abort s r w0).2) :
+    registered s d.1 = true := by
+  unfold abort at h
+  simp only at h
+  split at h
+  · unfold dropPeer at h
+    split at h
+    · next hr =>
+      simp at h
+      subst h
+      simpa [registered, resetQueue] using hr
+    · simp at h
+  · simp at h
+
+/-- whoever an `update` of the block fetcher drops is registered at that moment. The expiry of a request drops nobody — the
+    only drop of an update is the origin when nobody can be asked (`blame_deliverer`) —, and nothing at all is done to a peer
+    that is no longer registered, whatever it still has in flight. -/
+theorem update_drops_only_registered (s : State) (rs : List (Nat × List Nat)) (p : Nat) (w : Why)
+    (h : (p, w) ∈ (step .fixed s (.update rs)).2) : registered s p = true := by
+  change (p, w) ∈ (onUpdate s rs).2 at h
+  unfold onUpdate at h
+  split at h
+  · simp at h
+  · next r hr =>
+    split at h
+    · next fin hb =>
+      simp only at h
+      split at h
+      · have := (abort_drops h).2
+        rw [noPeers_no_drop] at this
+        cases this
+      · split at h
+        · split at h <;> simp at h
+        · split at h
+          · next hc =>
+            simp only [Bool.and_eq_true, List.isEmpty_iff, Bool.not_eq_true'] at hc
+            have heq := reserve_of_inflight_nil _ _ hc.1
+            rw [heq] at h
+            have := abort_drop_registered h
+            simpa [registered, State.withSched, State.sched, expire] using this
+          · simp at h
+    · simp at h
+
+/-- the scenario of C15-r3-3 in the model: the node (height 1) synchronises from peer 1; peer 2, idle, is handed the request for
+    hash 3 and LEAVES without answering; peer 1 delivers 2 and 1, which are imported… -/
+def leaverRun : List Event :=
+  [.register 1, .register 2, .sync 1 1, .hashes 1 ⟨[3, 2, 1], .known⟩, .hashes 1 ⟨[3, 2, 1], .unknown⟩,
+   .hashes 1 ⟨[], .unknown⟩, .update [(2, [3]), (1, [2, 1])], .unregister 2,
+   .blocks 1 [⟨2, true, true, true⟩, ⟨1, true, true, true⟩], .imp]
+
+/-- …and `blockTTL` ticks of the block fetcher later -/
+def leaverWait : List Event := (List.replicate blockTTL [Event.tick, Event.update []]).flatten
+
+set_option maxRecDepth 100000 in
+/-- until the request expires it stays in flight at the peer that left and the synchronisation waits for it; the expiry drops
+    nobody, the hash is back in the queue, the synchronisation goes on… -/
+theorem departed_peer_request_expires :
+    (exec .fixed {} leaverRun).1.inflight = [⟨2, [3], blockTTL⟩] ∧
+    registered (exec .fixed {} leaverRun).1 2 = false ∧
+    (exec .fixed {} (leaverRun ++ leaverWait)).2 = [] ∧
+    (exec .fixed {} (leaverRun ++ leaverWait)).1.pending = [3] ∧
+    (exec .fixed {} (leaverRun ++ leaverWait)).1.inflight = [] ∧
+    (exec .fixed {} (leaverRun ++ leaverWait)).1.run.isSome = true := by decide
+
+set_option maxRecDepth 100000 in
+/-- …the peer that stayed is asked, delivers, the import reaches height 3 and the synchronisation ends: nobody was dropped -/
+theorem departed_peer_request_served_by_the_other :
+    (exec .fixed {} (leaverRun ++ leaverWait ++
+      [.update [(1, [3])], .blocks 1 [⟨3, true, true, true⟩], .imp, .update []])) =
+    ({ peers := [⟨1, true⟩], offset := 4, head := 3 }, []) := by decide
+
 /-! ### the hypotheses are satisfiable -/
 
 /-- an honest synchronisation: probe, two search steps, three hashes, three blocks from two peers, import; nobody dropped, the
